@@ -9,7 +9,8 @@ fn bypass_spec(host: &str, entry: &str) -> bool {
 
 /// C11 for_url: hosts x no-proxy lists over a small label alphabet (suffix / subdomain / near-miss / empty / mixed case)
 #[test]
-fn vp_native_for_url_matrix() {
+fn vp_native_for_url_matrix() { crate::verif_native_watchdog::watched(vp_native_for_url_matrix_body); }
+fn vp_native_for_url_matrix_body() {
     let hosts = ["a.test", "xa.test", "b.a.test", "test", "a.test.x", "corp", "notcorp", "my.corp", "127.0.0.1", "[::1]", "A.TEST"];
     let entries = ["", "a.test", "A.Test", ".a.test", "test", "corp", "orp", "t", "127.0.0.1", "::1", "[::1]", "x"];
     let http = Url::parse("http://proxy.test:3128").unwrap();
@@ -34,7 +35,8 @@ fn vp_native_for_url_matrix() {
 
 /// C11 from_env: precedence, lower over upper case, NO_PROXY=*, entries trimmed of blanks and a leading dot, bad values ignored
 #[test]
-fn vp_native_from_env_matrix() {
+fn vp_native_from_env_matrix() { crate::verif_native_watchdog::watched(vp_native_from_env_matrix_body); }
+fn vp_native_from_env_matrix_body() {
     let names = ["http_proxy", "https_proxy", "all_proxy", "no_proxy"];
     let clear = || { for n in names { std::env::remove_var(n); std::env::remove_var(n.to_uppercase()); } };
     let values: [Option<&str>; 6] = [None, Some(""), Some("  "), Some("http://p1.test:1"), Some("socks5://s.test:2"), Some("not a url")];
